@@ -133,13 +133,14 @@ func structure(format, out string, subAttr bool) []tok {
 }
 
 type built struct {
-	d      doc
-	t      *scriggo.Template
-	benign string
-	toks   []tok
-	sig    string
-	holes  []hook6.Hole
-	sub    bool
+	hasTagHole bool
+	d          doc
+	t          *scriggo.Template
+	benign     string
+	toks       []tok
+	sig        string
+	holes      []hook6.Hole
+	sub        bool
 }
 
 func runTemplate(t *scriggo.Template, vars map[string]any) (out string, err error) {
@@ -169,7 +170,48 @@ func build(d doc) (*built, error) {
 	b.toks = structure(d.format, b.benign, b.sub)
 	b.sig = sigOf(b.toks)
 	b.holes, _ = hook6.Holes([]byte(d.src), formatOf(d.format))
+	for _, h := range b.holes {
+		if h.Context == "tag" {
+			b.hasTagHole = true
+		}
+	}
 	return b, nil
+}
+
+// kindOf: the token kind of a signature ("css:ident:xq7x" -> "css:ident:")
+func kindOf(sig string) string {
+	if i := strings.Index(sig, ":"); i >= 0 {
+		if j := strings.Index(sig[i+1:], ":"); j >= 0 {
+			return sig[:i+1+j+1]
+		}
+		if k := strings.IndexAny(sig[i+1:], "<"); k >= 0 {
+			return sig[:i+1+k+1]
+		}
+	}
+	return sig
+}
+
+// structDiff compares token structures. Where the benign marker itself sits in a non-slot token
+// (a tag name `<{{ s }}>`, an identifier because the context is already wrong) that token is the
+// slot and only its kind is compared.
+func (b *built) structDiff(toks []tok) string {
+	for i := 0; i < len(toks) || i < len(b.toks); i++ {
+		var x, y string
+		if i < len(b.toks) {
+			x = b.toks[i].sig
+		}
+		if i < len(toks) {
+			y = toks[i].sig
+		}
+		if x == y {
+			continue
+		}
+		if i < len(b.toks) && i < len(toks) && strings.Contains(x, benign) && kindOf(x) == kindOf(y) {
+			continue
+		}
+		return fmt.Sprintf("token %d: benign %q, with the value %q (benign has %d tokens, this run %d)", i, x, y, len(b.toks), len(toks))
+	}
+	return ""
 }
 
 func normNL(s string) string {
@@ -182,9 +224,12 @@ func (b *built) check(val string) (clause, detail, out string) {
 	if err != nil {
 		return "run-error", err.Error(), out
 	}
+	if val == "" && b.hasTagHole {
+		return "", "", out // an empty attribute-name slot is no attribute at all: allowed
+	}
 	toks := structure(b.d.format, out, b.sub)
-	if sig := sigOf(toks); sig != b.sig {
-		return "token-structure-differs", firstDiff(b.sig, sig), out
+	if d := b.structDiff(toks); d != "" {
+		return "token-structure-differs", d, out
 	}
 	// same structure: the decoded slot content must be the benign content with the marker replaced
 	attrName := ""
@@ -203,6 +248,7 @@ func (b *built) check(val string) (clause, detail, out string) {
 		var want string
 		switch t.sig {
 		case "html:text":
+			// x/net/html (and the RCDATA state) turn NUL into U+FFFD
 			want = strings.ReplaceAll(bt.val, benign, val)
 		case "html:attr-value":
 			if urlAttrs[attrName] {
@@ -221,28 +267,14 @@ func (b *built) check(val string) (clause, detail, out string) {
 		default:
 			continue
 		}
+		if t.sig == "html:text" { // x/net/html turns NUL into U+FFFD in the RCDATA states only; a browser everywhere
+			t.val, want = strings.ReplaceAll(t.val, "\x00", "\uFFFD"), strings.ReplaceAll(want, "\x00", "\uFFFD")
+		}
 		if normNL(t.val) != normNL(want) {
 			return "slot-content-differs", fmt.Sprintf("%s: decoded %q, want %q", t.sig, t.val, want), out
 		}
 	}
 	return "", "", out
-}
-
-func firstDiff(a, b string) string {
-	al, bl := strings.Split(a, "\n"), strings.Split(b, "\n")
-	for i := 0; i < len(al) || i < len(bl); i++ {
-		var x, y string
-		if i < len(al) {
-			x = al[i]
-		}
-		if i < len(bl) {
-			y = bl[i]
-		}
-		if x != y {
-			return fmt.Sprintf("token %d: benign %q, with the value %q (benign has %d tokens, this run %d)", i, x, y, len(al)-1, len(bl)-1)
-		}
-	}
-	return ""
 }
 
 // ---------------------------------------------------------------- shrinking and classification
@@ -255,41 +287,39 @@ type failure struct {
 	out    string
 }
 
-// shrink minimises the value, then the template, then the value again.
+// shrink minimises the value (bytes), then the document (whole parts: blocks, statements, rules —
+// never single bytes, so that the shrunk document is still one the grammar generates and the
+// failure cannot drift to a different construct), then the value again. The clause is kept.
 func shrink(f failure) failure {
 	failingVal := func(b *built) func([]byte) bool {
 		return func(v []byte) bool {
 			c, _, _ := b.check(string(v))
-			return c != "" && c != "run-error"
+			return c == f.clause
 		}
 	}
 	val := hx.ShrinkBytes([]byte(f.val), failingVal(f.b))
 	cur := f.b
-	src := hx.ShrinkBytes([]byte(f.b.d.src), func(s []byte) bool {
-		if !bytes.Contains(s, []byte("{{")) {
-			return false
-		}
+	parts := append([]string(nil), f.b.d.parts...)
+	for i := 0; i < len(parts) && len(parts) > 1; {
+		cand := append(append([]string(nil), parts[:i]...), parts[i+1:]...)
 		d := cur.d
-		d.src = string(s)
+		d.parts = cand
+		d.src = strings.Join(cand, "")
 		nb, err := build(d)
-		if err != nil {
-			return false
+		if err == nil {
+			if c, _, _ := nb.check(string(val)); c == f.clause {
+				parts, cur = cand, nb
+				continue
+			}
 		}
-		c, _, _ := nb.check(string(val))
-		return c != "" && c != "run-error"
-	})
-	d := f.b.d
-	d.src = string(src)
-	nb, err := build(d)
-	if err != nil {
+		i++
+	}
+	val = hx.ShrinkBytes(val, failingVal(cur))
+	c, det, out := cur.check(string(val))
+	if c != f.clause {
 		return f
 	}
-	val = hx.ShrinkBytes(val, failingVal(nb))
-	c, det, out := nb.check(string(val))
-	if c == "" {
-		return f
-	}
-	return failure{b: nb, val: string(val), clause: c, detail: det, out: out}
+	return failure{b: cur, val: string(val), clause: c, detail: det, out: out}
 }
 
 // the hole whose lexer context explains the failure: with one hole left after shrinking, that one
@@ -361,12 +391,25 @@ func classify(f failure) string {
 		return "js-template-literal"
 	case scriptHasRegexWithQuote(src):
 		return "js-regex-literal-quote"
-	case only("unquoted attribute") && f.val == "" && f.b.d.format == "html":
+	case stringEndsWithEscapedBackslash(src):
+		return "string-escaped-backslash-desync"
+	case holeInJSBlockComment(src) && strings.Contains(f.val, "*/"):
+		return "js-block-comment-breakout"
+	case strings.Contains(strings.ReplaceAll(src, " ", ""), "}}{{") && formsLineSeparator(f.val):
+		return "js-string-split-line-separator"
+	case (only("unquoted attribute") || only("unquoted attribute+URL")) && f.val == "" && f.b.d.format == "html":
 		return "unquoted-attr-empty-value"
 	case f.b.sub && (only("quoted attribute") || only("unquoted attribute")) && attrIsEventOrStyle(src):
 		return "attr-js-css-not-contextual"
 	}
 	return ""
+}
+
+// the value contains no U+2028 / U+2029 but two copies of it side by side do (it ends with a
+// truncated E2 / E2 80 and starts with the missing continuation bytes)
+func formsLineSeparator(v string) bool {
+	has := func(s string) bool { return strings.Contains(s, "\u2028") || strings.Contains(s, "\u2029") }
+	return !has(v) && has(v+v)
 }
 
 func allEqual(ss []string, want string) bool {
@@ -425,29 +468,88 @@ func scriptHasRegexWithQuote(src string) bool {
 		body = body[:a] + "0" + body[a+b+2:]
 	}
 	for _, t := range jsTokens(body) {
-		if t.sig == "js:regex" && strings.ContainsAny(t.val, `"'`) {
+		if t.sig == "js:regex" && (strings.ContainsAny(t.val, `"'`) || strings.HasSuffix(t.val, "/") || strings.HasSuffix(t.val, `\/`) || strings.Contains(t.val, "/*") || strings.HasPrefix(t.val, "*")) {
+			// a quote, or a `//` / `/*` formed with or inside the literal's delimiters
 			return true
 		}
 	}
 	return false
 }
 
-func attrIsEventOrStyle(src string) bool {
-	low := strings.ToLower(src)
-	i := strings.Index(low, "{{")
+// the template text (script, style or JSON script content, or a .js/.css/.json file) contains a
+// string literal that ends with an escaped backslash: `"…\\"` — the lexer reads `\"` as an
+// escaped quote
+func stringEndsWithEscapedBackslash(src string) bool {
+	return strings.Contains(src, `\\"`) || strings.Contains(src, `\\'`)
+}
+
+// a hole between `/*` and `*/` in JavaScript code (context JS: the value is written as a quoted
+// literal in which `*/` is not escaped)
+func holeInJSBlockComment(src string) bool {
+	i := strings.Index(src, "/*")
 	if i < 0 {
 		return false
 	}
-	before := low[:i]
-	k := strings.LastIndexAny(before, " \t\n<")
-	if k < 0 {
+	rest := src[i+2:]
+	j := strings.Index(rest, "*/")
+	if j < 0 {
 		return false
 	}
-	name := before[k+1:]
-	if e := strings.Index(name, "="); e >= 0 {
-		name = strings.TrimSpace(name[:e])
+	return strings.Contains(rest[:j], "{{")
+}
+
+// the (first) hole of the template sits in the value of an on* or style attribute
+func attrIsEventOrStyle(src string) bool {
+	hole := strings.Index(src, "{{")
+	if hole < 0 {
+		return false
 	}
-	return strings.HasPrefix(name, "on") || name == "style"
+	lt := strings.LastIndex(src[:hole], "<")
+	if lt < 0 {
+		return false
+	}
+	i := lt + 1
+	for i < hole && !strings.ContainsRune(" \t\n/>", rune(src[i])) { // tag name
+		i++
+	}
+	for i < hole {
+		for i < hole && strings.ContainsRune(" \t\n/", rune(src[i])) {
+			i++
+		}
+		st := i
+		for i < hole && !strings.ContainsRune(" \t\n=>", rune(src[i])) {
+			i++
+		}
+		name := strings.ToLower(src[st:i])
+		for i < hole && (src[i] == ' ' || src[i] == '\t' || src[i] == '\n') {
+			i++
+		}
+		if i >= hole || src[i] != '=' {
+			continue
+		}
+		i++
+		for i < hole && (src[i] == ' ' || src[i] == '\t' || src[i] == '\n') {
+			i++
+		}
+		if i >= hole {
+			return strings.HasPrefix(name, "on") || name == "style"
+		}
+		if q := src[i]; q == '"' || q == '\'' {
+			j := strings.IndexByte(src[i+1:], q)
+			if j < 0 || i+1+j >= hole {
+				return strings.HasPrefix(name, "on") || name == "style"
+			}
+			i += j + 2
+		} else {
+			for i < hole && !strings.ContainsRune(" \t\n>", rune(src[i])) {
+				i++
+			}
+			if i >= hole {
+				return strings.HasPrefix(name, "on") || name == "style"
+			}
+		}
+	}
+	return false
 }
 
 // ---------------------------------------------------------------- known findings (replayed first)
@@ -460,7 +562,9 @@ type knownCase struct {
 }
 
 func knownCases() []knownCase {
-	h := func(src string) doc { return doc{format: "html", src: src, extra: map[string]string{}} }
+	h := func(src string) doc {
+		return doc{format: "html", src: src, parts: []string{src}, extra: map[string]string{}}
+	}
 	kc := []knownCase{
 		{id: "js-regex-literal-quote", d: h(`<script>var r = /"/; var x = {{ s }};</script>`), val: "alert(1)"},
 		{id: "js-template-literal", d: h("<script>var x = `{{ s }}`;</script>"), val: "`+alert(1)+`"},
@@ -470,6 +574,10 @@ func knownCases() []knownCase {
 		{id: "unquoted-attr-empty-value", d: h(`<input value={{ s }} disabled>`), val: ""},
 		{id: "attr-js-css-not-contextual", d: func() doc { d := h(`<a onclick="go({{ s }})">`); d.risky = "attr-subcontext"; return d }(), val: "alert(1)"},
 	}
+	kc = append(kc,
+		knownCase{id: "string-escaped-backslash-desync", d: h(`<script>var p = "C:\\"; var x = {{ s }};</script>`), val: "alert(1)"},
+		knownCase{id: "js-string-split-line-separator", d: h(`<script>var b = "{{ s }}{{ s }}";</script>`), val: "\xa8\xe2\x80"},
+		knownCase{id: "js-block-comment-breakout", d: h(`<script>/* {{ s }} */</script>`), val: "*/alert(1)/*"})
 	r := h(`<p>{{ render "x.txt" }}</p>`)
 	r.extra["x.txt"] = "{{ s }}"
 	kc = append(kc, knownCase{id: "render-fastpath-format", d: r, val: "<b>"})
@@ -532,7 +640,7 @@ func run(c *hx.Ctx) error {
 
 	// 2. the two streams
 	g := &gen{r: c.R}
-	nDocs := c.N(1300, 16000)
+	nDocs := c.N(6000, 60000)
 	nVals := c.N(9, 14)
 	built6, buildErr := 0, 0
 	for i := 0; i < nDocs; i++ {
@@ -548,7 +656,7 @@ func run(c *hx.Ctx) error {
 		if err != nil {
 			buildErr++
 			res.Hist("build-error:" + stream)
-			if buildErr <= 12 {
+			if buildErr <= 3 {
 				res.Notes = append(res.Notes, "generator produced a document that does not build: "+err.Error()+"\n"+d.human())
 			}
 			continue
@@ -597,7 +705,7 @@ func run(c *hx.Ctx) error {
 	}
 	res.Histogram["documents-built"] = built6
 	if built6 < nDocs*9/10 {
-		return fmt.Errorf("only %d of %d generated documents build — generator is broken", built6, nDocs)
+		return fmt.Errorf("only %d of %d generated documents build — generator is broken\n%s", built6, nDocs, strings.Join(res.Notes, "\n"))
 	}
 
 	// 3. correspondence of the escapers on the values used
@@ -640,7 +748,6 @@ func correspondence(c *hx.Ctx, used map[string]bool) error {
 			if err != nil {
 				impl = "err " + err.Error()
 			}
-			c.Res.Count("esc:"+e.op+":"+v, false)
 			c.Res.Hist("correspondence:escaper-output")
 			// the model answer is `ok <out> <confined flags>`; the flags are the theorems' claims evaluated
 			m := model[k]
@@ -656,6 +763,17 @@ func correspondence(c *hx.Ctx, used map[string]bool) error {
 		}
 	}
 	return nil
+}
+
+// htmlLevel: the HTML-level tokens only (script content not sub-tokenised)
+func htmlLevel(doc string) string {
+	var b strings.Builder
+	for _, t := range htmlTokens(doc) {
+		if strings.HasPrefix(t.sig, "html:") {
+			b.WriteString(t.sig + "\n")
+		}
+	}
+	return b.String()
 }
 
 // specValidation: "confined" according to Spec/Slots.lean implies that the reference tokenizer of
@@ -703,6 +821,8 @@ func specValidation(c *hx.Ctx) error {
 	if err != nil {
 		return err
 	}
+	jsLenientEscapes = true
+	defer func() { jsLenientEscapes = false }()
 	k := 0
 	for _, v := range vals {
 		for _, p := range probes {
@@ -720,7 +840,7 @@ func specValidation(c *hx.Ctx) error {
 			}
 			var same bool
 			if p.format == "html-rawonly" {
-				same = sigOf(htmlTokens(p.render(v))) == sigOf(htmlTokens(p.render("x")))
+				same = htmlLevel(p.render(v)) == htmlLevel(p.render("x"))
 			} else {
 				same = sigOf(structure(p.format, p.render(v), false)) == sigOf(structure(p.format, p.render("x"), false))
 			}
@@ -728,7 +848,7 @@ func specValidation(c *hx.Ctx) error {
 			if !same {
 				c.Res.AddBreak(proto.Break{Kind: "correspondence", Name: "spec-validation-" + p.which, Case: lines[k-1],
 					Human: fmt.Sprintf("Spec/Slots says %q is confined in slot %s, the reference tokenizer sees a different structure for %q", v, p.which, p.render(v)),
-					Impl: "different structure", Model: a})
+					Impl:  "different structure", Model: a})
 			}
 		}
 	}
